@@ -55,7 +55,8 @@ NumPairs == SumSeq([n \in 1..Len(lists[cur]) |-> Len(lists[cur][n].acts)])
 NumEntries == Len(lists[cur])
 
 Init == /\ g \in 1..Len(Games)
-        /\ scale \in IF Slim THEN {"one", "max"} ELSE {"one", "tiny", "huge", "max"}
+        /\ scale \in IF Slim THEN {"one", "max"} \cup (IF g = 1 THEN {"near-third"} ELSE {})
+                               ELSE {"one", "tiny", "huge", "max", "near-half", "near-third"}
         /\ cur \in 1..2
         /\ \E other \in OtherChoices(Games[g][3 - cur]) :
               lists = [q \in 1..2 |-> IF q = cur THEN <<>> ELSE other]
